@@ -1,0 +1,57 @@
+//go:build verif
+
+// Contracts for the bmverif deductive checker (comment-only; compiled only under -tags verif).
+// Property C14, discrete kernel only: the row/column swap used to move a gate onto adjacent qubits is exact data
+// movement (conjugation by a transposition), for matrices of any size; float32 values are opaque (no arithmetic).
+
+package bmmatrix
+
+//@ props C14
+
+// a square matrix: N rows of N cells, every row in its own array
+//@ pred wfMatrix(m *BmMatrixSquareComplex) := m != nil && m.N >= 0 && len(m.Data) == m.N &&
+//@        (forall i int :: 0 <= i && i < m.N ==> len(m.Data[i]) == m.N) &&
+//@        (forall i int, j int :: 0 <= i && i < m.N && 0 <= j && j < m.N && i != j ==> arr(m.Data[i]) != arr(m.Data[j]))
+
+// the transposition (x y)
+//@ spec tau(i int, x int, y int) int := i == x ? y : (i == y ? x : i)
+
+//@ func NewBmMatrixSquareComplex(n int) *BmMatrixSquareComplex
+//@   requires n >= 0
+//@   ensures wf: wfMatrix(result) && result.N == n && fresh(result) && fresh(result.Data)
+//@   ensures rows: forall i int :: 0 <= i && i < n ==> fresh(result.Data[i])
+//@   ensures zero: forall i int, j int :: 0 <= i && i < n && 0 <= j && j < n ==> result.Data[i][j] == Complex32{0.0, 0.0}
+//@   assigns nothing
+//@   loop 1: modifies data[*]
+//@   loop 1: invariant rows: forall k int :: 0 <= k && k < $i ==> len(data[k]) == n && freshl(data[k])
+//@   loop 1: invariant distinct: forall k int, l int :: 0 <= k && k < $i && 0 <= l && l < $i && k != l ==> arr(data[k]) != arr(data[l])
+//@   loop 1: invariant zero: forall k int, j int :: 0 <= k && k < $i && 0 <= j && j < n ==> data[k][j] == Complex32{0.0, 0.0}
+
+//@ func SwapRowsColsComplex(a *BmMatrixSquareComplex, x int, y int) *BmMatrixSquareComplex
+//@   requires wfMatrix(a) && 0 <= x && x < a.N && 0 <= y && y < a.N
+//@   ensures wf: wfMatrix(result) && result.N == a.N && fresh(result)
+//@   ensures moved: forall i int, j int :: 0 <= i && i < a.N && 0 <= j && j < a.N ==> result.Data[i][j] == a.Data[tau(i, x, y)][tau(j, x, y)]
+//@   ensures source_kept: forall i int, j int :: 0 <= i && i < a.N && 0 <= j && j < a.N ==> a.Data[i][j] == old(a.Data[i][j])
+//@   loop 1: invariant a_kept: forall p int, q int :: 0 <= p && p < a.N && 0 <= q && q < a.N ==> a.Data[p][q] == old(a.Data[p][q])
+//@   loop 1: invariant rows: forall p int, q int :: 0 <= p && p < i && 0 <= q && q < a.N ==> b.Data[p][q] == old(a.Data[tau(p, x, y)][q])
+//@   loop 1: invariant idx: 0 <= i && i <= a.N
+//@   loop 2: invariant a_kept: forall p int, q int :: 0 <= p && p < a.N && 0 <= q && q < a.N ==> a.Data[p][q] == old(a.Data[p][q])
+//@   loop 2: invariant rows: forall p int, q int :: 0 <= p && p < i && 0 <= q && q < a.N ==> b.Data[p][q] == old(a.Data[tau(p, x, y)][q])
+//@   loop 2: invariant cells: forall q int :: 0 <= q && q < j ==> b.Data[i][q] == old(a.Data[tau(i, x, y)][q])
+//@   loop 2: invariant idx: 0 <= i && i < a.N && 0 <= j && j <= a.N
+//@   loop 3: invariant a_kept: forall p int, q int :: 0 <= p && p < a.N && 0 <= q && q < a.N ==> a.Data[p][q] == old(a.Data[p][q])
+//@   loop 3: invariant b_kept: forall p int, q int :: 0 <= p && p < a.N && 0 <= q && q < a.N ==> b.Data[p][q] == old(a.Data[tau(p, x, y)][q])
+//@   loop 3: invariant rows: forall p int, q int :: 0 <= p && p < i && 0 <= q && q < a.N ==> c.Data[p][q] == old(a.Data[tau(p, x, y)][tau(q, x, y)])
+//@   loop 3: invariant idx: 0 <= i && i <= a.N
+//@   loop 4: invariant a_kept: forall p int, q int :: 0 <= p && p < a.N && 0 <= q && q < a.N ==> a.Data[p][q] == old(a.Data[p][q])
+//@   loop 4: invariant b_kept: forall p int, q int :: 0 <= p && p < a.N && 0 <= q && q < a.N ==> b.Data[p][q] == old(a.Data[tau(p, x, y)][q])
+//@   loop 4: invariant rows: forall p int, q int :: 0 <= p && p < i && 0 <= q && q < a.N ==> c.Data[p][q] == old(a.Data[tau(p, x, y)][tau(q, x, y)])
+//@   loop 4: invariant cells: forall q int :: 0 <= q && q < j ==> c.Data[i][q] == old(a.Data[tau(i, x, y)][tau(q, x, y)])
+//@   loop 4: invariant idx: 0 <= i && i < a.N && 0 <= j && j <= a.N
+
+//@ func IdentityComplex(n int) *BmMatrixSquareComplex
+//@   requires n >= 0
+//@   ensures wf: wfMatrix(result) && result.N == n
+//@   ensures diag: forall i int, j int :: 0 <= i && i < n && 0 <= j && j < n ==> result.Data[i][j] == (i == j ? Complex32{1.0, 0.0} : Complex32{0.0, 0.0})
+//@   loop 1: invariant idx: 0 <= i && i <= n
+//@   loop 1: invariant done: forall p int, q int :: 0 <= p && p < n && 0 <= q && q < n ==> m.Data[p][q] == ((p == q && p < i) ? Complex32{1.0, 0.0} : Complex32{0.0, 0.0})
